@@ -243,6 +243,15 @@ func c20Body(x *mc.Cell, ops []int, name, names string) mc.Body {
 				}
 				mc.Wait()
 				closed = true
+				// a callback that graphsync still delivers after everything (a late block of the request) must return too:
+				// a lock leaked by one of the operations would hold it for ever
+				lateHang, _ := mc.Call(func() { conOps[opIdx("block-received")].do(w, chid, reqNum) })
+				if lateHang {
+					stacks := mc.BlockedStacks(6)
+					n := mc.Unblock()
+					x.Violate("C20", fmt.Sprintf("interleaving;late-callback-did-not-return;ops=%s", names), fmt.Sprintf("after %s (and Stop) a late block callback of the request never returned (%d goroutine(s) parked in library locks); schedule: %v\n%s", names, n, s.Trace, stacks), rep)
+					return
+				}
 				if sites := mc.BlockedSites(); len(sites) > 0 {
 					// a goroutine is blocked for good inside this library (e.g. a transport callback that never returns)
 					stacks := mc.BlockedStacks(6)
